@@ -200,6 +200,10 @@ def run(scenario, preemptions=None, choices=None, step_limit=60000,
         return body
     try:
         with sched_module.Patched(scheduler, [job_control, clock_module]):
+            # bound again now that the modules use the scheduler's
+            # primitives: should the binding ever hand out an object made at
+            # configure time, that object must be made of them as well
+            clock_module.configure()
             holder['control'] = JobControl()
             result.outcome = scheduler.run(*[
                 client(i, ops) for i, ops in enumerate(scenario['clients'])])
